@@ -53,22 +53,29 @@ async fn run_case(cap: usize, beh: Vec<char>, events: Vec<(String, char)>) -> St
 
 fn main() {
     let lines: Vec<String> = std::io::stdin().lock().lines().map(|l| l.unwrap()).collect();
-    let rt = tokio::runtime::Builder::new_multi_thread().worker_threads(8).enable_all().build().unwrap();
-    let results = rt.block_on(async {
-        let mut hs = vec![];
-        for chunk in lines.chunks(16) {
-            let mut cur = vec![];
-            for line in chunk {
-                let f: Vec<String> = line.split(' ').map(|s| s.to_string()).collect();
-                let evs: Vec<(String, char)> = f[3].split(',').map(|a| { let x: Vec<&str> = a.split(':').collect(); (x[0].to_string(), x[1].chars().next().unwrap()) }).collect();
-                let beh: Vec<char> = if f[2] == "-" { vec![] } else { f[2].chars().collect() };
-                let cap = f[1].parse().unwrap(); let id = f[0].clone();
-                cur.push(tokio::spawn(async move { format!("{} {}", id, run_case(cap, beh, evs).await) }));
-            }
-            for h in cur { hs.push(h.await.unwrap()); }
-        }
-        hs
-    });
+    // one answer line per case, printed chunk by chunk. Every case gets its OWN runtime (3 worker threads), so that a handler call
+    // that never returns — it blocks its worker thread for good — cannot starve the other cases; a case that does not finish within
+    // 8 s answers `HUNG`
     let mut o = std::io::stdout().lock();
-    for r in results { writeln!(o, "{r}").unwrap(); }
+    for chunk in lines.chunks(16) {
+        let mut cur = vec![];
+        for line in chunk {
+            let f: Vec<String> = line.split(' ').map(|s| s.to_string()).collect();
+            let evs: Vec<(String, char)> = f[3].split(',').map(|a| { let x: Vec<&str> = a.split(':').collect(); (x[0].to_string(), x[1].chars().next().unwrap()) }).collect();
+            let beh: Vec<char> = if f[2] == "-" { vec![] } else { f[2].chars().collect() };
+            let cap: usize = f[1].parse().unwrap(); let id = f[0].clone();
+            let (tx, rx) = std::sync::mpsc::channel::<String>();
+            std::thread::spawn(move || {
+                let rt = tokio::runtime::Builder::new_multi_thread().worker_threads(3).enable_all().build().unwrap();
+                let r = rt.block_on(async { match tokio::time::timeout(Duration::from_secs(8), run_case(cap, beh, evs)).await { Ok(r) => format!("{} {}", id, r), Err(_) => format!("{} HUNG", id) } });
+                let _ = tx.send(r);
+                rt.shutdown_background();
+            });
+            cur.push((f[0].clone(), rx));
+        }
+        for (id, rx) in cur { let r = rx.recv_timeout(Duration::from_secs(30)).unwrap_or(format!("{id} HUNG")); writeln!(o, "{r}").unwrap(); }
+        o.flush().unwrap();
+    }
+    drop(o);
+    std::process::exit(0);      // do not wait for worker threads stuck in a handler call
 }
